@@ -48,7 +48,8 @@ func c02Build(ssa bool) *c02World {
 			return kit.M{"status": kit.M{}, "children": kit.L{child(kit.Leaf, "", "b", "1"), child(kit.Widget, "", "c", "1"), child(kit.Leaf, "", "d", "1"), child(kit.Leaf, "", "e", "1"), child(kit.Leaf, "", "g", "1")}}
 		}
 		// a: create, b: update, c: recreate, e: adopt (+update), f: desired name occupied by a foreign-owned object, h: desired name occupied by a non-matching orphan
-		return kit.M{"status": kit.M{"seen": ver}, "children": kit.L{child(kit.Leaf, "", "a", ver), child(kit.Leaf, "", "b", ver), child(kit.Widget, "", "c", ver), child(kit.Leaf, "", "e", ver),
+		// the hook wires a plain (non-controller) owner reference to the parent into the child it wants created
+		return kit.M{"status": kit.M{"seen": ver}, "children": kit.L{kit.Owners(child(kit.Leaf, "", "a", ver), kit.OwnerRef(kit.Thing, "p", "puid", false)), child(kit.Leaf, "", "b", ver), child(kit.Widget, "", "c", ver), child(kit.Leaf, "", "e", ver),
 			child(kit.Leaf, "", "f", ver), child(kit.Leaf, "", "h", ver)}}
 	}))
 	w.DeliverAll()
